@@ -5,9 +5,11 @@ import SevenZ.Driver.Path
 import SevenZ.Driver.Decode
 import SevenZ.Driver.Reader
 import SevenZ.Driver.Spec
+import SevenZ.Driver.Listing
+import SevenZ.Driver.Aes
 open SevenZ.Driver
 
-def handlers : List (String → List String → Option String) := [primHandler, headerHandler, pathHandler, decHandler, readerHandler, specHandler]
+def handlers : List (String → List String → Option String) := [primHandler, headerHandler, pathHandler, decHandler, readerHandler, specHandler, listingHandler, aesHandler]
 
 def step (line : String) : String :=
   match (line.trimAscii.toString.splitOn " ").filter (· ≠ "") with
